@@ -39,14 +39,16 @@ Theorem c20_admit_negative_max_panics :
 Proof. exact admit_negative_max_panics. Qed.
 Print Assumptions c20_admit_negative_max_panics.
 
-(* ---- the refusal chain of Pipeline.In, for every CRI parser, decoder and antispam verdict ------ *)
+(* ---- the refusal chain of Pipeline.In, for every CRI parser, decoder and antispam verdict ------
+   (the code after repair a380cb6: "recognised by its input as already committed" refuses CRI rows only,
+   and only inside the antispam-enabled, non-partial branch) *)
 Theorem c20_in_refuse_iff :
   forall c cri decode_ok spam cur soff b, 0 <= max_size c ->
     ((exists w, pipeline_in c cri decode_ok spam cur soff b = Refused w) <->
      (empty_record b \/ (oversize c b /\ cut_on c = false) \/
       (let b' := seen_bytes c b in
        cri b' = None \/
-       (cri b' = Some false /\ 0 <= as_thr c /\ ((0 < soff /\ cur < soff) \/ spam b' = true)) \/
+       (cri b' = Some false /\ 0 <= as_thr c /\ ((is_cri c = true /\ 0 < soff /\ cur < soff) \/ spam b' = true)) \/
        decode_ok b' = false))).
 Proof. exact in_refuse_iff. Qed.
 Print Assumptions c20_in_refuse_iff.
